@@ -33,6 +33,14 @@ CHECKS = {
   text="Typestate over each tool's control flow (clean/written with interprocedural writes-files and may-exit summaries; backup-flag x copied over each writer), zero-exit-state guard of the yaml-merge write, refusal of an existing --output in validation, ordering of the yaml-set restore path, and an abstract fault-point enumeration: the ordered file-effect sequences extracted from the writers' code for each flag valuation are interpreted over an abstract file state and 'target intact or backup complete' is checked after a failure at every step. Interprets code structure for every exit path; executes nothing.",
   note="Trusted base: open('w') truncates, copy2 completes or leaves a partial destination, remove deletes; byte identity of the copy is shutil's.",
   technique="typestate / must-precede analysis over structured control flow + abstract interpretation of extracted file-effect sequences (static fault-point enumeration)"),
+ "C18": dict(
+  text="Mode routing by partial evaluation of merge_docs per MultiDocModes member; loop-shape comparison of the condense-all and matrix drivers with the mode definitions; and a complete small-domain evaluation of merge-across's guard ladder by the partial evaluator over all stream-length pairs 0..4 x 0..4 and every index (merge exactly below min(len), append exactly in [len(lhs), len(rhs)), subscripts in range). Decides the number/order clause; document content is C05's declined part.",
+  note="Trusted base: Python range/slice semantics; stream lengths fixed during merge_across except for the documented appends.",
+  technique="partial evaluation per enum member + small-domain evaluation of loop guards by the partial evaluator; loop-shape rules"),
+ "C19": dict(
+  text="Normal form of the marker predicate, key typestate of the rotation loop (old pair before decrypt, new pair before re-encrypt), dominance of the seen-anchor skip, changed-flag guard and backup ordering of the file effects, coverage and escaping of the discovery recursion, non-zero state in both EYAML handlers. Structural necessary conditions for every document; the external cipher is out of reach.",
+  note="Trusted base: external eyaml binary and its command protocol; ruamel dump.",
+  technique="typestate / must-precede rules and normal-form matching over the AST"),
 }
 
 NOT_BUILT = "check not built yet (framework under construction; will be claimed at clause level per DESIGN.md)"
